@@ -496,7 +496,10 @@ def c14n(data) -> bytes:
         root = etree.fromstring(data)
     else:
         root = data
-    return etree.canonicalize(xml_data=etree.tostring(root, encoding="unicode"), with_comments=True).encode("utf-8")
+    # a document element is serialised with its document: comments and processing instructions
+    # before / after the root element are information items of the infoset too
+    src = root.getroottree() if (root.getparent() is None and root.getroottree().getroot() is root) else root
+    return etree.canonicalize(xml_data=etree.tostring(src, encoding="unicode"), with_comments=True).encode("utf-8")
 
 
 def skeleton(data) -> list:
